@@ -53,6 +53,7 @@ def run(ctx):
     from src import polya_finder as pf
     quick = ctx.tier == "quick"
     ctx.prepare("C16.v")
+    ctx.rule("regenerated from the source on every run (tools/translate_extra.py -> coq/gen/Extra.v; bridged to the models by C16_cigar_codes_are_the_sources, C16_polya_exon_counts_are_the_sources, C16_finder_defaults_are_the_sources): CigarEvent values with get_match_events / get_ins_del_match_events (the code -> constructor table OPN of this file is CigarBridgeDefs.cigar_of_code), the sentinel / scan direction / break test / exon test of PolyAFixer.count_polya_exons and count_polyt_exons, the PolyAFinder defaults (window 16, fraction 0.75, polyA_count 12) and its external / internal search windows")
 
     # ---- 1. get_read_blocks: exhaustive short CIGARs + random long ones
     cases = []
